@@ -323,6 +323,9 @@ class Ctx:
     # ---- finish
     def finish(self):
         os.makedirs(EVIDENCE_DIR, exist_ok=True)
+        import glob
+        for old in glob.glob(os.path.join(REPLAY_DIR, f"{self.prop}-{self.seed}-*.json")):   # stale replays of this (prop, seed)
+            os.remove(old)
         lines = []
         exit_code = 0
         known_hit = {}
